@@ -163,7 +163,11 @@ pub fn client(a: &[String]) {
     let args: Vec<String> = a.to_vec();
     rt.block_on(async move {
         let callers_spec = &args[0];
-        let password = if args[1] == "-" { None } else { Some(args[1].clone()) };
+        // password spec: `-` plain connect | `pw:<hex>` connect_with_password | `opt:<hex or ->` connect_with_password_opt | anything else: literal password
+        let (pw_entry, password): (&str, Option<String>) = if args[1] == "-" { ("plain", None) }
+            else if let Some(h) = args[1].strip_prefix("pw:") { ("pw", Some(String::from_utf8(crate::args_bytes(&[h.to_string()])[0].clone()).unwrap())) }
+            else if let Some(h) = args[1].strip_prefix("opt:") { ("opt", if h == "-" { None } else { Some(String::from_utf8(crate::args_bytes(&[h.to_string()])[0].clone()).unwrap()) }) }
+            else { ("pw", Some(args[1].clone())) };
         let server = Rc::new(RefCell::new(Server { password: args[2].clone(), ..Default::default() }));
         if args[3] != "-" {
             let p: Vec<&str> = args[3].split(',').collect();
@@ -202,12 +206,18 @@ pub fn client(a: &[String]) {
         // connect: the password exchange needs the server to answer while connect is pending
         let mut conn: Pin<Box<dyn Future<Output = Result<mpd_client::client::Connection, String>>>> = {
             let io = Faulty { inner: cl, flags: flags.clone() };
-            match password.clone() {
+            let show = |e: mpd_client::client::ConnectWithPasswordError| match e {
+                mpd_client::client::ConnectWithPasswordError::IncorrectPassword => "IncorrectPassword".to_string(),
+                mpd_client::client::ConnectWithPasswordError::ProtocolError(e) => format!("ProtocolError {e:?}") };
+            if pw_entry == "opt" {
+                let p = password.clone();
+                Box::pin(async move { Client::connect_with_password_opt(io, p.as_deref()).await.map_err(show) })
+            } else { match password.clone() {
                 None => Box::pin(async move { Client::connect(io).await.map_err(|e| format!("ProtocolError {e:?}")) }),
                 Some(p) => Box::pin(async move { Client::connect_with_password(io, &p).await.map_err(|e| match e {
                     mpd_client::client::ConnectWithPasswordError::IncorrectPassword => "IncorrectPassword".to_string(),
                     mpd_client::client::ConnectWithPasswordError::ProtocolError(e) => format!("ProtocolError {e:?}") }) }),
-            }
+            } }
         };
         let mut connected = None;
         for _ in 0..50 {
